@@ -387,6 +387,18 @@ pub fn run_c07(tier: &str, seed: u64, model: &Model, corpus_lines: Vec<String>, 
         let c = CntCase { recs, k, threads, mem, acgt: rng.chance(1, 4), sched };
         run_one(&c, "random", &mut rep, &mut traces, &mut branching, &mut layouts);
     }
+    // (3) free-running contention stress: many copies of one long record so that all workers meet
+    // the same k-mers for the first time together (races below hook granularity, e.g. a lost update
+    // between a lookup and an insert, only show up here)
+    let rounds = if tier == "thorough" { 60 } else { 5 };
+    for i in 0..rounds {
+        let k = *rng.pick(&[5usize, 11, 21, 31]);
+        let len = rng.range(3000, 6000) as usize;
+        let one = gen::clean_seq(&mut rng, len, if i % 2 == 0 { gen::Flavor::Uniform } else { gen::Flavor::Tandem });
+        let recs: Vec<Vec<u8>> = (0..32).map(|_| one.clone()).collect();
+        let c = CntCase { recs, k, threads: 16, mem: 6.0, acgt: false, sched: "free".into() };
+        run_one(&c, "contention", &mut rep, &mut traces, &mut branching, &mut layouts);
+    }
     rep.traces_validated = traces;
     rep.schedules_enumerated = n_sched;
     rep
